@@ -41,6 +41,7 @@ type runner struct {
 	seqMu    sync.Mutex
 	coldRuns int64
 	coldMu   sync.Mutex
+	sweeps   map[string]*sweepPrep
 }
 
 type coldRef struct {
@@ -158,6 +159,13 @@ func (r *runner) runPlan(v *variant, prop string, seed int64, index int, tier st
 	oc := &outcome{Variant: v.Name, Index: index}
 	var args []string
 	var planFile string
+	if given == nil && prop == "C14" {
+		// sweeps need the list of types that die even alone (filled by the driver)
+		if gp := r.genPlan(v, prop, seed, index, tier); gp != nil && gp.Mode == "typesweep" {
+			gp.Sweep.Exclude = r.sweepExcluded(v)
+			given = gp
+		}
+	}
 	if given != nil {
 		planFile = r.tmpName("plan") + ".json"
 		data, _ := json.Marshal(given)
@@ -176,17 +184,7 @@ func (r *runner) runPlan(v *variant, prop string, seed int64, index int, tier st
 		if info.Out != nil && info.Out.Plan != nil {
 			return info.Out.Plan
 		}
-		// gen prints only the plan
-		cmd := exec.Command(v.Bin, "gen", "-prop", prop, "-seed", fmt.Sprint(seed), "-index", fmt.Sprint(index), "-tier", tier)
-		out, err := cmd.Output()
-		if err != nil {
-			return nil
-		}
-		p := &plan.Plan{}
-		if json.Unmarshal(out, p) != nil {
-			return nil
-		}
-		return p
+		return r.genPlan(v, prop, seed, index, tier)
 	}
 	if info.TimedOut {
 		// confirm with a ten-fold budget in a fresh process
@@ -231,8 +229,11 @@ func (r *runner) runPlan(v *variant, prop string, seed int64, index int, tier st
 		}
 	}
 	// isolation oracle
-	if oc.Plan != nil && oc.Plan.Mode == "sessions" && len(oc.Viols) == 0 || (oc.Plan != nil && oc.Plan.Mode == "sessions" && oc.Res != nil) {
+	if oc.Plan != nil && oc.Plan.Mode == "sessions" {
 		r.isolation(v, oc)
+	}
+	if oc.Plan != nil && oc.Plan.Mode == "typesweep" {
+		r.sweepIsolation(v, oc)
 	}
 	nt := false
 	for _, n := range oc.Res.Faults {
@@ -406,6 +407,151 @@ func (r *runner) computeCold(v *variant, p *plan.Plan, k int) *coldRef {
 }
 
 var coldRepeats = 3
+
+func (r *runner) genPlan(v *variant, prop string, seed int64, index int, tier string) *plan.Plan {
+	cmd := exec.Command(v.Bin, "gen", "-prop", prop, "-seed", fmt.Sprint(seed), "-index", fmt.Sprint(index), "-tier", tier, "-variant", v.Name)
+	cmd.Env = append(os.Environ(), "GOMAXPROCS=1")
+	out, err := cmd.Output()
+	if err != nil {
+		return nil
+	}
+	p := &plan.Plan{}
+	if json.Unmarshal(out, p) != nil {
+		return nil
+	}
+	return p
+}
+
+// ---------------------------------------------------------------- type sweeps (C14)
+
+type sweepPrep struct {
+	once     sync.Once
+	excluded []int
+	count    int
+}
+
+func (r *runner) prep(v *variant) *sweepPrep {
+	r.memoMu.Lock()
+	if r.sweeps == nil {
+		r.sweeps = map[string]*sweepPrep{}
+	}
+	sp := r.sweeps[v.Name]
+	if sp == nil {
+		sp = &sweepPrep{}
+		r.sweeps[v.Name] = sp
+	}
+	r.memoMu.Unlock()
+	return sp
+}
+
+// sweepExcluded computes, once per variant, the cold reference of every type
+// of the population (each alone in a fresh process) and returns the indices
+// of the types on which go-json dies even alone: those are C01/C08 territory
+// and are excluded from the sweeps (and counted).
+func (r *runner) sweepExcluded(v *variant) []int {
+	sp := r.prep(v)
+	sp.once.Do(func() {
+		var d struct {
+			SweepTypes int `json:"sweep_types"`
+		}
+		json.Unmarshal([]byte(rawStdout(v, "describe")), &d)
+		sp.count = d.SweepTypes
+		var mu sync.Mutex
+		var wg sync.WaitGroup
+		sem := make(chan struct{}, 16)
+		for i := 0; i < d.SweepTypes; i++ {
+			i := i
+			wg.Add(1)
+			sem <- struct{}{}
+			go func() {
+				defer wg.Done()
+				defer func() { <-sem }()
+				ref := r.coldSweep(v, fmt.Sprintf("t%d", i), nil)
+				if ref.Fatal != "" {
+					mu.Lock()
+					sp.excluded = append(sp.excluded, i)
+					mu.Unlock()
+				}
+			}()
+		}
+		wg.Wait()
+		sort.Ints(sp.excluded)
+		fmt.Fprintf(os.Stderr, "[sweep] variant %s: %d types in the population, %d die even alone and are excluded\n", v.Name, d.SweepTypes, len(sp.excluded))
+	})
+	return sp.excluded
+}
+
+func (r *runner) coldSweep(v *variant, key string, p *plan.Plan) *coldRef {
+	mkey := v.Hash + "|sweep|" + key
+	if strings.HasPrefix(key, "r") && p != nil {
+		mkey += fmt.Sprintf("|%d|%d", p.Sweep.Seed, p.Sweep.Reflect)
+	}
+	r.memoMu.Lock()
+	if ref, ok := r.memo[mkey]; ok {
+		r.memoMu.Unlock()
+		return ref
+	}
+	r.memoMu.Unlock()
+	q := &plan.Plan{Prop: "C14", Mode: "typesweep", Sweep: &plan.Sweep{}}
+	var n int
+	if strings.HasPrefix(key, "t") {
+		fmt.Sscanf(key, "t%d", &n)
+		q.Sweep.Only = []int{n}
+	} else {
+		fmt.Sscanf(key, "r%d:", &n)
+		q.Sweep.OnlyR = []int{n}
+		q.Sweep.Only = []int{-1}
+		q.Sweep.Seed = p.Sweep.Seed
+		q.Sweep.Reflect = p.Sweep.Reflect
+	}
+	f := r.tmpName("coldsweep") + ".json"
+	data, _ := json.Marshal(q)
+	os.WriteFile(f, data, 0o644)
+	defer os.Remove(f)
+	info := r.exec(v, r.timeout, "exec", "-plan", f, "-noplan", "-variant", v.Name)
+	r.coldMu.Lock()
+	r.coldRuns++
+	r.coldMu.Unlock()
+	var ref *coldRef
+	if info.Out == nil {
+		ref = &coldRef{Fatal: fatalSummary(info.Stderr)}
+	} else {
+		ref = &coldRef{Obs: info.Out.Result.Obs[key]}
+	}
+	r.memoMu.Lock()
+	r.memo[mkey] = ref
+	r.memoMu.Unlock()
+	return ref
+}
+
+func (r *runner) sweepIsolation(v *variant, oc *outcome) {
+	keys := make([]string, 0, len(oc.Res.Obs))
+	for k := range oc.Res.Obs {
+		keys = append(keys, k)
+	}
+	sort.Strings(keys)
+	for _, k := range keys {
+		ref := r.coldSweep(v, k, oc.Plan)
+		if ref.Fatal != "" {
+			oc.Res.Excluded++
+			continue
+		}
+		if d := diffObs(ref.Obs, oc.Res.Obs[k]); d != "" {
+			oc.Viols = append(oc.Viols, plan.Violation{Oracle: "isolation", Where: fmt.Sprintf("type %s (%s)", k, first(oc.Res.Obs[k])), Sig: "isolation|sweep",
+				Detail: d})
+			if len(oc.Viols) > 6 {
+				return
+			}
+		}
+	}
+}
+
+func first(s []string) string {
+	if len(s) > 0 {
+		return s[0]
+	}
+	return ""
+}
 
 // ---------------------------------------------------------------- race logs
 
